@@ -41,14 +41,13 @@ Section Life.
   Proof.
     intros [[Hs ->]|(b & bl & Hv & Hb & Ho & Hl)].
     - (* never allocated: nothing to destroy, nothing to free *)
-      unfold drop_vec.
-      assert (Hh : vec_handle v s = (Val Sentinel, s)) by (unfold vec_handle; rewrite Hs; reflexivity).
-      rewrite (bind_val _ _ _ _ _ Hh). unfold try_finally, drop_handle. cbn [ret].
+      unfold drop_vec, try_finally, drop_body.
+      rewrite (bind_val _ _ _ _ _ (sn_is_default s v Hs)). cbn [ret].
       destruct (set_handle_none s v) as (s' & E & H1 & H2 & H3 & H4 & H5). rewrite E. simpl.
       split; [|left; auto].
       constructor; [intros e []| |exact H5]. split; [exact H2|]. intros e _. rewrite H1. reflexivity.
     - pose proof (bo_len _ _ Hb) as Hlen.
-      unfold drop_vec. rewrite (bind_val _ _ _ _ _ (vec_handle_at _ _ _ _ Hv)).
+      unfold drop_vec.
       destruct (data_at cfg _ _ _ _ Hcfg Hv Hb) as (off & Hco & Hd).
       assert (Hread : read_list cfg (PElt b off 0) (h_len bl) s = (Val (velems bl), s)).
       { rewrite (read_list_at cfg Hcfg s b bl off 0 (h_len bl) (proj2 Hv) Hb Hco); try lia.
@@ -62,9 +61,12 @@ Section Life.
       set (Qp1 := fun (s1 : state) =>
                    (forall e, In e l -> ledger s1 e = Dropped) /\ only_changes s s1 l /\ vecs s1 = vecs s /\
                    heap s1 = heap s).
-      assert (HA : post (drop_handle cfg (At b 0) v s) Q1 Qp1).
-      { unfold drop_handle.
-        rewrite (bind_val _ _ _ _ _ (hdr_block_at cfg _ _ _ _ Hcfg Hv Hb)). cbn [snd].
+      assert (HA : post (drop_body cfg v s) Q1 Qp1).
+      { unfold drop_body.
+        rewrite (bind_val _ _ _ _ _ (is_default_at _ _ _ _ Hv)).
+        assert (Hx : (h <- vec_handle v ;; hdr_block h) s = (Val (b, bl), s)).
+        { rewrite (bind_val _ _ _ _ _ (vec_handle_at _ _ _ _ Hv)). apply (hdr_block_at cfg _ _ _ _ Hcfg Hv Hb). }
+        rewrite (bind_val _ _ _ _ _ Hx). cbn [snd].
         rewrite (bind_val _ _ _ _ _ Hd). rewrite (bind_val _ _ _ _ _ Hread). rewrite Hl.
         eapply post_bind.
         - eapply post_weaken; [apply (drop_list_spec cfg Htracked l s)| |].
@@ -76,6 +78,9 @@ Section Life.
             * split; [exact (ds_vecs _ _ _ Hds)|exact (ds_heap _ _ _ Hds)].
         - intros u s1 Hds.
           rewrite (bo_layout _ _ Hb). rewrite lift_opt_some, bind_ret. cbn [fst snd].
+          assert (Hvh1 : vec_handle v s1 = (Val (At b 0), s1)).
+          { unfold vec_handle. rewrite (ds_vecs _ _ _ Hds), (proj1 Hv). reflexivity. }
+          rewrite (bind_val _ _ _ _ _ Hvh1).
           unfold do_dealloc. cbn [Z.eqb negb].
           assert (Hg : get_block b s1 = (Val bl, s1)).
           { apply get_block_at; [rewrite (ds_heap _ _ _ Hds); exact (proj2 Hv)|exact (bo_live _ _ Hb)]. }
